@@ -69,6 +69,19 @@ Proof.
 Qed.
 Print Assumptions c26_if_parse_unary_paren_bounded.
 
+(* BOUNDED: nested conditionals in condition-, then- and else-position (chains of 3, `?:` is right associative)
+   with every pair of binary operators around them: 5 templates x 18 x 18 operator pairs *)
+Theorem c26_if_parse_ternary_nesting_bounded : forall a b ts,
+  In a bin_ops -> In b bin_ops -> In ts (tern_templates a b) ->
+  exists e, g_parse 100 ts = Some e /\ parse_line 100 (map tok_of ts) = Ok (tree_of e).
+Proof.
+  intros a b ts Ha Hb Ht. apply parse_agrees_sound.
+  pose proof (proj1 (forallb_forall _ _) parse_ternary_bounded a Ha) as H. cbv beta in H.
+  pose proof (proj1 (forallb_forall _ _) H b Hb) as H2. cbv beta in H2.
+  exact (proj1 (forallb_forall _ _) H2 ts Ht).
+Qed.
+Print Assumptions c26_if_parse_ternary_nesting_bounded.
+
 Example c26_nonvacuous :
   In ["-"; "*"; "?"]%string seqs_upto3 /\
   In (PBin BDiv (PLit false (-7)) (PLit false 2)) (lits pool ++ depth1 ++ depth2) /\
